@@ -111,7 +111,7 @@ def add_prints_and_faults(rng, ns):
 
 def run_case(ctx, pydsdl, seed, nrep, workdir):
     rng = random.Random(seed)
-    ns = GN.gen_namespace(rng, n_roots=rng.choice([2, 2, 3]))
+    ns = GN.gen_namespace(rng, n_roots=rng.choice([2, 2, 3]), deprecated=rng.choice([0.0, 0.2, 0.5]))
     if rng.random() < 0.45:
         # the target's root namespace is defined partially in a second directory of the same name, given as a lookup: its
         # definitions are lookup definitions like any other and stay outside the closure unless referenced
